@@ -850,3 +850,10 @@ Theorem bt_insert_hint_eq t x :
   NoDup (ids t) ->
   bt_insert_from (option_map eid (snd (bt_find t (ekey x)))) t x = Some (bt_insert t x).
 Proof. intros H. unfold bt_insert_from. rewrite insert_ctx_hint; auto. Qed.
+
+(** erase removes the element that find returns *)
+Theorem bt_erase_finds t k : fst (bt_erase t k) = fst (bt_find t k).
+Proof.
+  unfold bt_erase, bt_find. destruct (find_ctx k t []) as [sub c].
+  destruct sub; reflexivity.
+Qed.
